@@ -479,6 +479,17 @@ KeySwitchRes(a) ==
   ELSE ROk([a EXCEPT !.key = 1, !.nb = KsNoise(a)])
 
 (***************************************************************************)
+(* Serialization round trip inside a program (C14: the restored object is  *)
+(* interchangeable with the original): writing a ciphertext in the compact *)
+(* (mode "compact") or full (mode "full") format and reading it back gives *)
+(* the same ciphertext; a seed-compressed one comes back expanded.         *)
+(***************************************************************************)
+ReloadRes(a) ==
+  IF ~IsCt(a) THEN RAny("not a ciphertext")
+  ELSE IF ~a.valid THEN RAny("corrupted object")
+  ELSE ROk([a EXCEPT !.seeded = FALSE])
+
+(***************************************************************************)
 (* Single-field corruptions (C06)                                          *)
 (***************************************************************************)
 Modes == {"pk", "pkd", "sk", "skseed"}   \* pk/pkd: value-returning / destination form of public-key encryption
@@ -538,6 +549,8 @@ EncryptZero == \E d \in CtSlots, l \in Levels, mode \in Modes :
               Apply([NoAct EXCEPT !.op = "encrypt_zero", !.lvl = l, !.mode = mode], EncryptZeroRes(l, mode), d)
 EncryptOther == \E d \in CtSlots, p \in PtSlots, mode \in Modes :
               Apply([NoAct EXCEPT !.op = "encrypt_other", !.p = p, !.mode = mode], EncryptOtherRes(pool[p], mode), d)
+Reload   == \E a \in CtSlots, d \in CtSlots, mode \in {"compact", "full"} :
+              Apply([NoAct EXCEPT !.op = "reload", !.a = a, !.mode = mode], ReloadRes(pool[a]), d)
 KeySwitch == \E a \in CtSlots, d \in CtSlots : Apply([NoAct EXCEPT !.op = "keyswitch", !.a = a], KeySwitchRes(pool[a]), d)
 Expand   == \E a \in CtSlots : Apply([NoAct EXCEPT !.op = "expand", !.a = a], ExpandRes(pool[a]), a)
 Decrypt  == \E a \in CtSlots, d \in PtSlots : Apply([NoAct EXCEPT !.op = "decrypt", !.a = a], DecryptRes(pool[a]), d)
@@ -593,7 +606,7 @@ Next == \/ Encode \/ Encrypt \/ EncryptZero \/ Expand \/ Decrypt
         \/ ToNtt \/ FromNtt \/ PlainToNtt
         \/ ModSwitchNext \/ ModSwitchTo \/ RescaleNext \/ RescaleTo
         \/ ModSwitchPlainNext \/ ModSwitchPlainTo
-        \/ Galois \/ Rotate \/ Conj \/ Corrupt \/ EncryptOther \/ KeySwitch \/ AddMany \/ MultiplyMany
+        \/ Galois \/ Rotate \/ Conj \/ Corrupt \/ EncryptOther \/ KeySwitch \/ AddMany \/ MultiplyMany \/ Reload
 
 Spec == Init /\ [][Next]_allvars
 
